@@ -38,6 +38,7 @@ from .values import (
     VPy,
     VPyFunc,
     VRef,
+    VSlice,
     VSpecFn,
     VStr,
     VTuple,
@@ -46,6 +47,7 @@ from .values import (
     opaque_truthy,
     py_count,
     py_isspace,
+    py_repeat,
     py_lstrip,
     py_rstrip,
     py_strip,
@@ -57,7 +59,7 @@ EMPTY = z3.StringVal("")
 SPEC_FUNCS = (
     "joined old count n_count first_start last_end chain_ok span_ok joined_values "
     "implies is_none appended length seq_of at unchanged strip lstrip rstrip isspace "
-    "startswith endswith contains substr ite same present is_ctor"
+    "startswith endswith contains substr ite same present is_ctor or_empty"
 ).split()
 
 
@@ -544,7 +546,7 @@ class Engine(object):
             qual = "%s:%s" % (mod, qn)
             if qual in self.contracts:
                 return VContractFn(qual)
-            if obj in (len, all, any, tuple, list, dict, filter, map, enumerate, isinstance, range, abs, bool, str, int, min, max):
+            if obj in (len, all, any, tuple, list, dict, filter, map, enumerate, isinstance, range, abs, bool, str, int, min, max, slice):
                 return VBuiltin(obj.__name__)
             if mod == "collections" and qn == "deque":
                 return VBuiltin("deque")
@@ -692,6 +694,12 @@ class Engine(object):
                 return VInt(a.z * b.z)
         if isinstance(a, VStr) and isinstance(b, VStr) and isinstance(op, ast.Add):
             return VStr(z3.Concat(a.z, b.z))
+        if isinstance(op, ast.Mult) and ((isinstance(a, VStr) and isinstance(b, VInt)) or (isinstance(a, VInt) and isinstance(b, VStr))):
+            sv, nv = (a, b) if isinstance(a, VStr) else (b, a)
+            r = py_repeat(sv.z, nv.z)
+            st.assume(z3.Implies(nv.z <= 0, r == EMPTY), z3.Implies(nv.z == 1, r == sv.z), z3.Length(r) == z3.If(nv.z <= 0, 0, nv.z * z3.Length(sv.z)))
+            self.assumptions.add("stdlib spec: s * n is uninterpreted apart from its length, n <= 0 and n == 1")
+            return VStr(r)
         if isinstance(op, ast.Add) and isinstance(a, VTuple) and isinstance(b, VTuple):
             return VTuple(a.items + b.items)
         if isinstance(op, ast.Add) and isinstance(a, VRef) and isinstance(b, VRef):
@@ -763,6 +771,11 @@ class Engine(object):
                     raise Unsupported("slice of %s" % type(base).__name__)
             return outs
         for s, (base, idx) in self.eval_seq([e.value, e.slice], st):
+            if isinstance(idx, VSlice) and isinstance(base, VStr):
+                lo = None if isinstance(idx.lo, VNone) else idx.lo.z
+                hi = None if isinstance(idx.hi, VNone) else idx.hi.z
+                outs.append((s, VStr(self.py_slice(base.z, lo, hi))))
+                continue
             if isinstance(base, VRef):
                 o = s.heap[base.rid]
                 if isinstance(o, RecordObj) and isinstance(idx, VStr) and z3.is_string_value(idx.z):
@@ -1040,6 +1053,20 @@ class Engine(object):
             return [(st, st.alloc(RecordObj({k: (z3.BoolVal(True), v) for k, v in kwargs.items()})))]
         if name == "partial" and args:
             return [(st, VPartial(args[0], args[1:], kwargs))]
+        if name == "slice" and len(args) == 2 and all(isinstance(a, (VInt, VNone)) for a in args):
+            return [(st, VSlice(args[0], args[1]))]
+        if name == "map" and len(args) == 2 and isinstance(args[1], VTuple) and isinstance(args[0], (VFunc, VPartial, VContractFn, VPyFunc)):
+            # map(f, (x, y, ...)) over a tuple display: applied eagerly, left to right (it is consumed at once by unpacking)
+            outs = [(st, [])]
+            for item in args[1].items:
+                nxt = []
+                for s2, vs in outs:
+                    arg_items = item.items if False else [item]
+                    for s3, r in self.apply(args[0], arg_items, {}, s2, e):
+                        nxt.append((s3, vs + [r]))
+                outs = nxt
+            self.assumptions.add("stdlib idiom spec: a, b = map(f, (x, y)) == a, b = f(x), f(y)")
+            return [(s2, VTuple(vs)) for s2, vs in outs]
         if name == "isinstance":
             self.abstracted.add("abstracted: isinstance(...)")
             return [(st, VBool(fresh("isinstance", B)))]
@@ -1312,6 +1339,13 @@ class Engine(object):
         if name == "is_none":
             c = self.equal(args[0], VNone(), st)
             return VBool(c if c is not None else z3.BoolVal(False))
+        if name == "or_empty":
+            v = args[0]
+            if isinstance(v, VNone):
+                return VStr(EMPTY)
+            if isinstance(v, VStr):
+                return v
+            raise OutOfSubset("or_empty() of %r" % (v,))
         if name == "is_ctor":
             return VBool(isinstance(args[0], VCtor))
         if name == "appended":
@@ -1358,8 +1392,11 @@ class Engine(object):
         old = (dict(bound), dict(st.heap))
         for path in c.modifies:
             self.havoc_path(bound, path, st, c)
-        # result
-        res = self.fresh_value(c.result, "ret:" + qual.split(":")[-1], st)
+        # result (a deterministic, frame-free callee is a function of its arguments)
+        if c.deterministic and not c.modifies and c.result in ("int", "str", "bool"):
+            res = self.opaque_call("contract:" + qual, [bound[k] for k in sorted(bound)], st, c.result)
+        else:
+            res = self.fresh_value(c.result, "ret:" + qual.split(":")[-1], st)
         post = self.spec_env_state(st, dict(bound, result=res))
         post.heap = st.heap  # share (spec evaluation may alloc helper views)
         for en in c.ensures:
@@ -1949,7 +1986,7 @@ class Contract(object):
     """Sidecar contract of one real function (DESIGN §2.1 'Contract file format')"""
 
     def __init__(self, qual, params=None, requires=(), ensures=(), modifies=(), result="opaque", loops=None,
-                 bind=None, closure=None, local_kinds=None, decorators=None, pure_results=None, trusted=None, src=None):
+                 bind=None, closure=None, local_kinds=None, decorators=None, pure_results=None, trusted=None, src=None, deterministic=False):
         self.qual = qual
         self.params = params or {}
         self.requires, self.ensures, self.modifies = list(requires), list(ensures), list(modifies)
@@ -1961,6 +1998,7 @@ class Contract(object):
         self.decorators = decorators
         self.pure_results = pure_results or {}
         self.trusted = trusted
+        self.deterministic = deterministic
         self.src = src or qual.split("#")[0]
 
     def fnode(self):
